@@ -289,6 +289,9 @@ class SourceFile:
                 pass
         else:
             hits = [it for it in self.items if it.name == spec and it.kind not in ("impl", "use")]
+        if len(hits) > 1 and sum(1 for h in hits if h.kind == "macro_rules") == 1:
+            # a macro_rules definition and its item-level invocations share the name: the definition is meant
+            hits = [h for h in hits if h.kind == "macro_rules"]
         if len(hits) != 1:
             raise Undecided(f"item `{spec}` in {self.path}: {len(hits)} matches")
         return hits[0]
